@@ -767,3 +767,85 @@ NATIVE.add(COMPOSITE + "._attribute", _gen_attr, _build_attr(True))
 NOT_COVERED = []
 EXPLANATION = ""
 ASSUMPTIONS = []
+
+
+# ------------------------------------------------------------------------------------------------ bounded: sequences of queries
+def extra_offset_sequences(eng, tier, seed):
+    """Bounded, native, not counted: the contracts above speak about ONE call; this probe covers what only a SEQUENCE of
+    calls can show (hidden state such as a cache): (a) the same type object queried with several base offsets one after the
+    other - also bases that BitLengthSet's approximate ==/hash cannot tell apart - must answer each query like a fresh
+    object does; (b) `_offset_` evaluated in the request and in the response section of a service, and repeatedly within one
+    section, equals the brute-force set of lengths of the fields before that point."""
+    import pathlib
+    import shutil
+    import tempfile
+    import pydsdl
+    from pydsdl import BitLengthSet
+    from pydsdl import _serializable as S
+
+    CM = S.PrimitiveType.CastMode
+    u = lambda n: S.UnsignedIntegerType(n, CM.TRUNCATED)
+    violations, checked = [], 0
+
+    def struct(name, *types):
+        return S.StructureType(name="ns." + name, version=S.Version(1, 0),
+                               attributes=[S.Field(t, "f%d" % i) for i, t in enumerate(types)], deprecated=False,
+                               fixed_port_id=None, source_file_path=pathlib.Path("/tmp/ns/%s.1.0.dsdl" % name),
+                               has_parent_service=False)
+
+    def mk_types():
+        var = struct("Var", S.VariableLengthArrayType(u(8), 2))
+        return [S.FixedLengthArrayType(u(3), 4), S.FixedLengthArrayType(var, 4),
+                struct("Outer", u(1), u(16), var, u(5), S.FixedLengthArrayType(var, 2)),
+                S.UnionType(name="ns.U", version=S.Version(1, 0), attributes=[S.Field(u(8), "a"), S.Field(var, "b")],
+                            deprecated=False, fixed_port_id=None, source_file_path=pathlib.Path("/tmp/ns/U.1.0.dsdl"),
+                            has_parent_service=False),
+                S.DelimitedType(struct("D", u(8), var), 64)]
+
+    bases = [BitLengthSet(0), BitLengthSet({8, 40, 72, 104}), BitLengthSet({8, 40, 104}), BitLengthSet({8, 104}),
+             BitLengthSet({3, 35}), BitLengthSet({3, 35, 67}), BitLengthSet(1), BitLengthSet({0, 8})]
+
+    def answer(t, b):
+        it = t.enumerate_elements_with_offsets(b) if isinstance(t, S.FixedLengthArrayType) else t.iterate_fields_with_offsets(b)
+        return [(str(k), frozenset(o)) for k, o in it]
+
+    for idx in range(len(mk_types())):
+        shared = mk_types()[idx]
+        for b in bases + bases[::-1]:
+            fresh = mk_types()[idx]
+            checked += 1
+            if answer(shared, b) != answer(fresh, b):
+                violations.append({"name": "native/offsets-independent-of-earlier-queries",
+                                   "concrete": {"type": str(shared), "base": sorted(b)},
+                                   "detail": "a type object that answered other base offsets before gives %r, a fresh one %r"
+                                             % (answer(shared, b)[:3], answer(fresh, b)[:3])})
+                break
+        if violations:
+            break
+
+    # (b) _offset_ in services and repeated queries
+    d = pathlib.Path(tempfile.mkdtemp(prefix="c08-seq-"))
+    try:
+        (d / "ns").mkdir()
+        texts = {
+            "Svc.1.0.dsdl": ("uint8 a\n@assert _offset_ == {8}\nuint8[<=2] b\n@assert _offset_ == {16, 24, 32}\n@assert _offset_ == {16, 24, 32}\n"
+                             "@sealed\n---\nuint16[<=2] x\n@assert _offset_ == {8, 24, 40}\nuint8 y\n@assert _offset_ == {16, 32, 48}\n@sealed\n"),
+            "Msg.1.0.dsdl": ("@assert _offset_ == {0}\nbool[<=3] f\n@assert _offset_ == {8, 9, 10, 11}\nvoid3\n@assert _offset_ == {11, 12, 13, 14}\n"
+                             "uint8 g\n@assert _offset_ == {19, 20, 21, 22}\n@sealed\n"),
+            "Uni.1.0.dsdl": ("@union\nuint8 a\nuint16[<=1] b\n@assert _offset_ == {16, 32}\n@assert _offset_ == {16, 32}\n@sealed\n"),
+        }
+        for n, tx in texts.items():
+            (d / "ns" / n).write_text(tx)
+        try:
+            pydsdl.read_namespace(d / "ns", [])
+            checked += len(texts)
+        except pydsdl.FrontendError as ex:
+            violations.append({"name": "native/offset-intrinsic-in-sections", "concrete": {"files": texts},
+                               "detail": "%s: %s" % (type(ex).__name__, str(ex)[:300])})
+    finally:
+        shutil.rmtree(d, ignore_errors=True)
+    return {"check": "offset queries in sequence: several bases on one object; _offset_ in both sections of a service "
+                     "(bounded, native)", "queries": checked, "violations": violations[:1]}
+
+
+EXTRA_CHECKS = list(globals().get("EXTRA_CHECKS", [])) + [extra_offset_sequences]
